@@ -126,6 +126,7 @@ def run(res):
             K = pool_k[ki]
             before_k = [snap_k(x) for x in pool_k]
             before_f = [snap_f(x[2]) for x in objs]
+            before_F = None if Fv is None else [frozenset(P) for P in Fv]
             try:
                 with contextlib.redirect_stdout(io.StringIO()):
                     r = lang(logic).modelcheck(K, arg, F=Fv) if withF else lang(logic).modelcheck(K, arg)
@@ -145,6 +146,12 @@ def run(res):
                 aliased = [False] * len(pool_ks)
             if after_f != before_f:
                 violations.append(('a modelcheck call modified a formula object', ctx))
+            if Fv is not None and [frozenset(P) for P in Fv] != before_F:
+                violations.append(('a modelcheck call modified the caller\'s fairness constraints: %s -> %s'
+                                   % ([sorted(P) for P in before_F], [sorted(P) for P in Fv]), ctx))
+                for P, B0 in zip(Fv, before_F):
+                    P.clear()
+                    P.update(B0)
             # purity as "a function of the VALUES of its arguments": the same call on freshly built equal arguments
             if step % 3 == 0 or withF:
                 try:
